@@ -206,6 +206,14 @@ public:
       }
     }
     FifoModel m;
+    if (c.hist.weak) {
+      // weak runs (C03): conservation and delivery order are promised, exact 'empty' answers are not (a pop that
+      // misses a push it is not ordered after by happens-before is store buffering) - see bqueues.cpp
+      std::vector<int> sub;
+      for (int i : ops)
+        if (c.hist.ops[i].kind == OP_PUSH || c.hist.ops[i].status != 0) sub.push_back(i);
+      ops.swap(sub);
+    }
     check_linearizable(c, *this, m, FifoModel::State(), ops, "not-linearizable");
     c.state_hash = sh;
   }
